@@ -113,6 +113,7 @@ type change struct {
 	Replace []map[string]interface{} `json:"replace"`
 	AddCol  string                   `json:"add_col"`
 	DelCol  string                   `json:"del_col"`
+	Reverse bool                     `json:"reverse"` // the backend lists the table in the opposite order from now on
 }
 
 func keyMatches(row, key map[string]interface{}) bool {
@@ -146,6 +147,10 @@ func applyChanges(b *backend.Backend, changes []change) {
 					}
 				}
 				tab.Rows = rows
+			case ch.Reverse:
+				for i, j := 0, len(tab.Rows)-1; i < j; i, j = i+1, j-1 {
+					tab.Rows[i], tab.Rows[j] = tab.Rows[j], tab.Rows[i]
+				}
 			case ch.AddCol != "":
 				tab.Cols = append(tab.Cols, ch.AddCol)
 			case ch.DelCol != "":
